@@ -1,5 +1,6 @@
 //! `vh` — conformance harness binding the TLA+ specifications in /verif/spec to the
 //! brave/sta-rs crates built from /repo's working tree.
+mod agg;
 mod derive;
 mod field;
 mod ggm;
@@ -22,6 +23,7 @@ fn main() {
   }
   let a = Args::parse(&argv[1..]);
   let rep = match argv[0].as_str() {
+    "agg-replay" => agg::replay(&a),
     "derive-replay" => derive::replay(&a),
     "field-record" => field::record(&a),
     "shamir-record" => shamir::record(&a),
